@@ -350,7 +350,7 @@ def correspondence(ctx, model_ok=True):
         c = progs.canon_step(r)
         if (exp is not None and (c[0] != "ok" or list(c[2]) != exp)) or (exp is None and c[0] != "ok"):
             failures.append({"what": "known scenario %s: %s" % (name, c), "program": src, "expected": exp, "signature": "known " + name.split("-")[0], "failing_input": True})
-    gen = progs.generated(rng, ["expr", "control"], 600 if ctx.thorough else 300)
+    gen = progs.generated(rng, ["expr", "control", "typed", "typed-try"], 1600 if ctx.thorough else 600)
     sd = specdiff.diff(ctx, [(n, s, m) for n, s, m, _ in gen], "C05", broken) if model_ok else {"failures": [], "compared": 0}
     failures += sd["failures"]
     cov = {
